@@ -127,7 +127,7 @@ def confirm(wt, i, props, tier):
 def rerun(ids, tier, props_override=None):
     base = os.path.join(VERIF, "seeded")
     for d in sorted(os.listdir(base)):
-        if ids and d not in ids:
+        if (ids and d not in ids) or not os.path.isdir(os.path.join(base, d)):
             continue
         mp = os.path.join(base, d, "meta.json")
         meta = json.load(open(mp))
